@@ -305,6 +305,7 @@ def rigid_rules(ctx):
 def run(ctx):
     from . import e2e_rules as _e2e
 
+    ctx.attempt(_e2e.beam_rule, ctx, 'R10.E2')
     ctx.attempt(_e2e.frame_rule_e2e, ctx, 'R10.E1')
     ctx.attempt(_e2e.beam_length_rule, ctx, 'R10.18')
     from .c07 import embedding_dimension_rule as _embedding_dimension_rule
